@@ -61,14 +61,15 @@ def get_facts(config='default', repo=REPO, quiet=True):
     out = os.path.join(CACHE, 'facts', f'{h}-{config}.json')
     if os.path.exists(out):
         return out, h, False, 0.0
-    lock = open(os.path.join(CACHE, 'lock'), 'w')
+    tag = os.environ.get('VERIF_TARGET_TAG', '')
+    lock = open(os.path.join(CACHE, 'lock' + tag), 'w')
     fcntl.flock(lock, fcntl.LOCK_EX)
     try:
         if os.path.exists(out):
             return out, h, False, 0.0
         t0 = time.time()
         build_driver()
-        target = os.path.join(CACHE, 'target-' + config)
+        target = os.path.join(CACHE, 'target-' + config + tag)
         # cargo's freshness cache would skip the wrapper: drop the member's fingerprints
         for d in glob.glob(os.path.join(target, 'debug', '.fingerprint', 'jsonb-*')):
             shutil.rmtree(d, ignore_errors=True)
